@@ -216,11 +216,13 @@ func c04Check(c c04Case, r *h.Rec) error {
 	}
 	if ls.oc.Panicked {
 		r.Refused++
+		r.Class("refused(analysis):" + clip(ls.oc.Msg, 70))
 		return nil
 	}
 	text, oc := sqlOutput(ls)
 	if oc.Panicked {
 		r.Refused++
+		r.Class("refused(sql):" + clip(oc.Msg, 70))
 		return nil
 	}
 	sc, err := parseSQL(text, src)
